@@ -50,12 +50,12 @@ const (
 )
 
 type Field struct {
-	Go    string // Go field name
-	Tag   string // value of the json tag
+	Go     string // Go field name
+	Tag    string // value of the json tag
 	HasTag bool
-	Emb   bool
-	Unexp bool
-	T     *Ty
+	Emb    bool
+	Unexp  bool
+	T      *Ty
 }
 
 type Ty struct {
@@ -343,6 +343,84 @@ func (u UnmVal) UnmarshalJSON(b []byte) error {
 	return nil
 }
 
+// named scalar kinds that carry an unmarshaler: a decoder must call the method, never the fast path of the kind
+// (pointer receivers USJ..UBT, value receivers VSJ..VIJ)
+type (
+	USJ string
+	UST string
+	UIJ int
+	UIT int64
+	UBJ bool
+	UBT bool
+	VSJ string
+	VST string
+	VIJ int
+)
+
+func (u *USJ) UnmarshalJSON(b []byte) error {
+	if string(b) == `"ERR"` {
+		return fmt.Errorf("USJ: refused")
+	}
+	*u = USJ("J" + string(b))
+	return nil
+}
+func (u *UST) UnmarshalText(b []byte) error {
+	if string(b) == "ERR" {
+		return fmt.Errorf("UST: refused")
+	}
+	*u = UST("T" + string(b))
+	return nil
+}
+func (u *UIJ) UnmarshalJSON(b []byte) error {
+	if string(b) == `"ERR"` {
+		return fmt.Errorf("UIJ: refused")
+	}
+	*u = UIJ(1000 + len(b))
+	return nil
+}
+func (u *UIT) UnmarshalText(b []byte) error {
+	if string(b) == "ERR" {
+		return fmt.Errorf("UIT: refused")
+	}
+	*u = UIT(2000 + len(b))
+	return nil
+}
+func (u *UBJ) UnmarshalJSON(b []byte) error {
+	if string(b) == `"ERR"` {
+		return fmt.Errorf("UBJ: refused")
+	}
+	*u = UBJ(len(b)%2 == 0)
+	return nil
+}
+func (u *UBT) UnmarshalText(b []byte) error {
+	if string(b) == "ERR" {
+		return fmt.Errorf("UBT: refused")
+	}
+	*u = UBT(len(b)%2 == 0)
+	return nil
+}
+func (v VSJ) UnmarshalJSON(b []byte) error {
+	if string(b) == `"ERR"` {
+		return fmt.Errorf("VSJ: refused")
+	}
+	return nil
+}
+func (v VST) UnmarshalText(b []byte) error {
+	if string(b) == "ERR" {
+		return fmt.Errorf("VST: refused")
+	}
+	return nil
+}
+func (v VIJ) UnmarshalJSON(b []byte) error {
+	if string(b) == `"ERR"` {
+		return fmt.Errorf("VIJ: refused")
+	}
+	return nil
+}
+
+// UnmScalars lists the catalogue ids of the scalar kinds with unmarshalers.
+var UnmScalars = []string{"USJ", "UST", "UIJ", "UIT", "UBJ", "UBT", "VSJ", "VST", "VIJ"}
+
 type (
 	MyInt   int
 	MyI8    int8
@@ -520,6 +598,15 @@ func init() {
 	reg(new(MySlice))
 	reg(new(MyMap))
 	reg(new(UnmVal))
+	reg(new(USJ))
+	reg(new(UST))
+	reg(new(UIJ))
+	reg(new(UIT))
+	reg(new(UBJ))
+	reg(new(UBT))
+	reg(new(VSJ))
+	reg(new(VST))
+	reg(new(VIJ))
 	reg(new(EmbA))
 	reg(new(EmbA2))
 	reg(new(EmbB))
@@ -673,6 +760,11 @@ func fromReflect(t reflect.Type, open map[reflect.Type]bool) *Ty {
 	if open[t] {
 		open = map[reflect.Type]bool{}
 	}
+	for _, id := range UnmScalars { // opaque: only the oracle comparison knows what their methods do
+		if t.Name() == id && catalogue[id] == t {
+			return Named(id)
+		}
+	}
 	switch t {
 	case tNum:
 		return Leaf(KNum)
@@ -799,6 +891,12 @@ func scalarKind(t *Ty) bool {
 	switch t.K {
 	case KBool, KInt, KF32, KF64, KStr, KNum:
 		return true
+	case KNamed: // the scalar kinds that carry an unmarshaler are scalar kinds for the `,string` rule too
+		for _, id := range UnmScalars {
+			if t.Name == id {
+				return true
+			}
+		}
 	}
 	return false
 }
